@@ -435,6 +435,19 @@ class Interp:
             env2[test.left.id] = num(keep, False)
         if isinstance(test, ast.UnaryOp) and isinstance(test.op, ast.Not):
             return self.refine(test.operand, env, not outcome, depth)
+        # `mask(x).any()` is False / `mask(x).all()` is True: then EVERY element answers that way, which narrows the classes of x;
+        # the other outcome says nothing about an individual element
+        if isinstance(test, ast.Call) and isinstance(test.func, ast.Attribute) and test.func.attr in ("any", "all") and not test.args:
+            decisive = (test.func.attr == "any" and outcome is False) or (test.func.attr == "all" and outcome is True)
+            m = test.func.value
+            if decisive and isinstance(m, ast.Call) and len(m.args) == 1 and isinstance(m.args[0], ast.Name) and m.args[0].id in env:
+                mv = self.ev(m, env, depth)
+                xv = env[m.args[0].id]
+                if mv.kind == "bool" and isinstance(mv.items, dict) and xv.kind == "num":
+                    keep = {c for c, bs in mv.items.items() if outcome in bs}
+                    if not keep:
+                        return None
+                    env2[m.args[0].id] = num(keep & set(xv.cls) or keep, xv.arr)
         return env2
 
     def ifexp(self, e: ast.IfExp, env, depth) -> V:
@@ -455,6 +468,12 @@ class Interp:
             recv = self.ev(fn.value, env, depth)
             if recv.kind == "num":
                 return self.method(c, fn.attr, recv, args, kws)
+            if recv.kind == "bool" and fn.attr in ("any", "all") and not args:
+                # a reduction of an element-wise mask over the whole array: the other elements decide as well, so the outcome is not a
+                # function of this element's class - unless every class gives the same answer
+                if recv.arr and len(recv.cls) > 1:
+                    return V("bool", {True, False})
+                return V("bool", recv.cls)
             if recv.kind == "seq" and fn.attr == "append":
                 recv.items.append(args[0] if args else OPAQUE)
                 return NONE
@@ -622,6 +641,10 @@ class Interp:
             if name == "logsumexp" and a0.kind == "num":
                 # library routine, exact at -inf: all -inf -> -inf; otherwise finite/inf according to the largest element
                 return num(a0.cls, True)
+            if name in ("zeros_like", "zeros"):
+                return num({ZERO}, True)
+            if name in ("ones_like", "ones"):
+                return num({POS}, True)
             if name == "isfinite" and a0.kind == "num":
                 v = V("bool", {x in FINITE for x in a0.cls}, True)
                 v.items = {x: frozenset({x in FINITE}) for x in a0.cls}
